@@ -63,6 +63,8 @@ type op struct {
 type txn struct {
 	ops   []op
 	abort bool
+	// direct: the writes go straight to the DB, outside a transaction
+	direct bool
 }
 
 func (t txn) String() string {
@@ -78,10 +80,28 @@ func (t txn) String() string {
 	if t.abort {
 		end = "abort"
 	}
+	if t.direct {
+		end = "direct"
+	}
 	return "tx{" + strings.Join(p, "; ") + "; " + end + "}"
 }
 
 func (t txn) run(w *world) string {
+	if t.direct {
+		for _, o := range t.ops {
+			var err error
+			if o.del {
+				err = w.table.NewDelete().Where(gorp.MatchKeys[int32, Row](o.k)).Exec(ctx, w.db)
+			} else {
+				r := Row{ID: o.k, Cat: o.v, Score: scoreOf(o.v)}
+				err = w.table.NewCreate().Entry(&r).Exec(ctx, w.db)
+			}
+			if err != nil {
+				return t.String() + ": " + err.Error()
+			}
+		}
+		return t.String() + ": ok"
+	}
 	tx := w.db.OpenTx()
 	for _, o := range t.ops {
 		var err error
@@ -121,6 +141,10 @@ var scenarios = []scenario{
 		[][]txn{{{ops: []op{{true, 1, ""}}}}, {{ops: []op{{false, 1, "b"}, {false, 2, "b"}}}}}},
 	{"X3 three transactions: overwrite, move to the other's value, abort", []op{{false, 1, "a"}, {false, 2, "b"}},
 		[][]txn{{{ops: []op{{false, 1, "b"}}}}, {{ops: []op{{false, 2, "a"}, {false, 1, "c"}}}}, {{ops: []op{{false, 2, "c"}}, abort: true}}}},
+	{"X5 two writers overwrite the same row directly on the DB", []op{{false, 1, "a"}},
+		[][]txn{{{ops: []op{{false, 1, "b"}}, direct: true}}, {{ops: []op{{false, 1, "c"}}, direct: true}}}},
+	{"X6 a transaction commits while a direct write overwrites the same row", []op{{false, 1, "a"}},
+		[][]txn{{{ops: []op{{false, 1, "b"}}}}, {{ops: []op{{false, 1, "c"}}, direct: true}}}},
 	{"X4 two transactions per thread on one row", []op{{false, 1, "a"}},
 		[][]txn{{{ops: []op{{false, 1, "b"}}}, {ops: []op{{true, 1, ""}}}}, {{ops: []op{{false, 1, "c"}}}, {ops: []op{{false, 1, "a"}}}}}},
 }
